@@ -13,13 +13,6 @@ From Sylt Require Import Lua.LuaAst Lua.LuaMap Lua.LuaNum Lua.LuaProofs Lua.LuaC
 Import ListNotations.
 Local Open Scope N_scope.
 
-(* the world with one more closure *)
-Definition world_addD (W : world) (d : fdyn) : world :=
-  mkWorld (w_R W) (w_F W) (fun d' => w_D W d' \/ d' = d) (w_P W) (w_pc W).
-
-Lemma wsub_addD W d : wsub W (world_addD W d).
-Proof. unfold wsub, world_addD. cbn. repeat split; auto. Qed.
-
 Definition s_newclos (st : sstate) (cl : SyltSem.closure) : sstate :=
   SyltSem.mkState (SyltSem.cells st) (SyltSem.blobs st) (SyltSem.clos st ++ [cl]) (SyltSem.trace st).
 
@@ -77,7 +70,7 @@ Lemma rel_define_lambda fl W sc e st E stL t ps ks rk body g k bc ctx c c2 l :
 Proof.
   intros (Hfs & W1 & Hs1 & Hrel0) Hpok Hlks Hfb Hlow Hub Hbt Htc Hlut HEf E1 d.
   pose proof Hrel0 as [Hb Hfbd Hp Hpb HpE HpG Hwf Ht Hli HW].
-  pose proof HW as [H1 H2 H3 H4 H5 H6 H7 Hff H8 H9 H10 Hall Hlock H11 H13 H14].
+  pose proof HW as [H1 H2 H3 H4 H5 H6 H7 Hff H8 H9 H10 Hall Hlock H11 H13 H14 Hfi].
   set (stL2 := lua_def_state stL E1 ps (fbody u d)).
   assert (Hold : forall p, (p < s_ncell stL)%positive -> get_cell stL2 p = get_cell stL p)
     by (intros p Hp'; apply lua_def_old; exact Hp').
@@ -91,18 +84,18 @@ Proof.
   { intros v Hv. destruct (H11 v Hv) as (c0 & p & A & B & C). exists c0, p.
     split; [exact A | split; [unfold E1; rewrite sget_sset_var by (pose proof (Hfb2 v (or_introl Hv)); lia); exact B | exact C]]. }
   assert (Hfs1 : fscope fl W e E1).
-  { intros f K Hin HK. destruct (Hfs f K Hin HK) as (c0 & p & d' & A & B & C). exists c0, p, d'.
+  { intros f K Hin HK. destruct (Hfs f K Hin HK) as (c0 & p & A & B & C). exists c0, p.
     split; [exact A | split; [|exact C]]. unfold E1. rewrite sget_sset_var; [exact B|].
     assert (f < bound) by (apply Hfb2; right; unfold fnames; apply in_map_iff; eexists; split; [|exact Hin]; reflexivity). lia. }
   assert (Hfl2 : forall f K, In (f, K) fl -> K <> KP ->
-            exists c0 p d', SyltSem.lookup e f = Some c0 /\ sget (fmt_var f) E1 = Some p /\ w_F W1 c0 p d' /\ dkind d' = K).
-  { intros f K Hin HK. destruct (Hfs1 f K Hin HK) as (c0 & p & d' & A & B & C & D & _). exists c0, p, d'.
+            exists c0 p, SyltSem.lookup e f = Some c0 /\ sget (fmt_var f) E1 = Some p /\ w_F W1 c0 p K).
+  { intros f K Hin HK. destruct (Hfs1 f K Hin HK) as (c0 & p & A & B & C). exists c0, p.
     destruct Hs1 as (_ & HF & _). auto. }
   assert (Htm2 : forall t0 p, bound <= t0 -> sget (fmt_var t0) E1 = Some p -> not_user W1 p).
   { intros t0 p Hbt0 Hq. unfold E1 in Hq. destruct (N.eq_dec t0 t) as [->|Hne].
     - rewrite sget_sset_same in Hq. inversion Hq; subst p. split.
       + intros c0 b Hr. destruct (H1 c0 _ b Hr) as (_ & _ & _ & Hlt). lia.
-      + intros c0 d0 Hf. destruct (H6 c0 _ d0 Hf) as (_ & _ & Hlt & _). lia.
+      + intros c0 K0 Hf. destruct (H6 c0 _ K0 Hf) as (d0 & _ & _ & Hlt & _). lia.
     - rewrite sget_sset_var in Hq by exact Hne. exact (H14 t0 p Hbt0 Hq). }
   assert (Hstatic : fstatic pv sv bound u d).
   { constructor; cbn [d fd_var fd_params fd_pk fd_rk fd_body fd_sc fd_fl fd_g fd_k fd_code fd_c fd_c' fd_lut fd_ef fd_Ef].
@@ -121,8 +114,7 @@ Proof.
     - apply (wf_V _ _ Hwf1).
     - apply (wf_inj _ _ Hwf1). }
   split.
-  { intros f K Hin HK. destruct (Hfs1 f K Hin HK) as (c0 & p & d' & A & B & C & D & F). exists c0, p, d'.
-    split; [exact A | split; [exact B | split; [exact C | split; [exact D | left; exact F]]]]. }
+  { exact Hfs1. }
   exists (world_addD W1 d). split.
   { destruct Hs1 as (A & B & C & D & F). unfold wsub, world_addD. cbn.
     split; [exact A|]. split; [exact B|]. split; [intros d0 [Hd0|Hd0]; [left; apply C; exact Hd0 | right; exact Hd0]|]. split; assumption. }
@@ -143,8 +135,8 @@ Proof.
     + exact H3.
     + exact H4.
     + exact H5.
-    + intros c0 p d0 Hf. destruct (H6 c0 p d0 Hf) as (A & B & C & D).
-      split; [exact A|]. split; [rewrite Hold by exact C; exact B|]. split; [rewrite Hnc2; lia | left; exact D].
+    + intros c0 p K0 Hf. destruct (H6 c0 p K0 Hf) as (d0 & A & B & C & D & Dk). exists d0.
+      split; [exact A|]. split; [rewrite Hold by exact C; exact B|]. split; [rewrite Hnc2; lia | split; [left; exact D | exact Dk]].
     + exact H7.
     + exact Hff.
     + intros p lv Hq. destruct (H8 p lv Hq) as [A B]. split; [rewrite Hold by exact B; exact A | rewrite Hnc2; lia].
@@ -174,6 +166,7 @@ Proof.
     + exact Hsc2.
     + exact H13.
     + exact Htm2.
+    + exact Hfi.
 Qed.
 
 End DefLam.
